@@ -36,7 +36,7 @@ pub fn run_case(c: &Value) -> CaseResult {
         "poly_ops" => poly::run(c),
         "dtree_cnf" => dtree::run(c),
         "vtree_mgr" => vtree::run(c),
-        "hasher_hist" => hasher::run(c),
+        "hasher_hist" | "hasher_all" => hasher::run(c),
         "sdd_prog" => sdd::run(c),
         "lat_eu" | "lat_real" | "lat_bool" | "lat_rational" => lattice::run(c),
         "compile_expr" | "compile_cnf" | "compile_sdd" => compile::run(c),
